@@ -28,9 +28,9 @@ impl Prop for C10 {
     }
     fn phases(&self, tier: Tier) -> Vec<Phase> {
         vec![
-            Phase::new("gprog", tier.pick(2500, 80000)).min_cases(tier.pick(600, 20000)).timeouts(120, tier.pick(300, 1500)),
-            Phase::new("own-line-comments", tier.pick(1500, 40000)).min_cases(tier.pick(300, 8000)).timeouts(120, tier.pick(300, 1500)),
-            Phase::new("inline-comments", tier.pick(2000, 60000)).min_cases(tier.pick(400, 12000)).timeouts(120, tier.pick(300, 1500)),
+            Phase::new("gprog", tier.pick(2500, 200000)).min_cases(tier.pick(600, 40000)).timeouts(120, tier.pick(300, 1500)),
+            Phase::new("own-line-comments", tier.pick(1500, 100000)).min_cases(tier.pick(300, 20000)).timeouts(120, tier.pick(300, 1500)),
+            Phase::new("inline-comments", tier.pick(2000, 150000)).min_cases(tier.pick(400, 25000)).timeouts(120, tier.pick(300, 1500)),
             Phase::new("repo-files", tier.pick(400, 4000)).min_cases(tier.pick(60, 300)).timeouts(300, tier.pick(300, 1500)),
         ]
     }
